@@ -3,17 +3,20 @@ pub mod c02;
 pub mod c02r;
 pub mod c03;
 pub mod c04;
+pub mod c05;
+pub mod c06;
 pub mod c08;
 pub mod c09;
 pub mod c10;
 pub mod c11;
 pub mod c12;
 pub mod c13;
+pub mod c14;
 
 use crate::framework::Spec;
 
 pub fn all() -> Vec<&'static Spec> {
-    vec![&c01::SPEC, &c02::SPEC, &c02::SPEC_C07, &c10::SPEC, &c03::SPEC, &c04::SPEC, &c09::SPEC, &c13::SPEC, &c12::SPEC, &c08::SPEC, &c11::SPEC]
+    vec![&c01::SPEC, &c02::SPEC, &c02::SPEC_C07, &c10::SPEC, &c03::SPEC, &c04::SPEC, &c09::SPEC, &c13::SPEC, &c12::SPEC, &c08::SPEC, &c11::SPEC, &c05::SPEC, &c06::SPEC, &c14::SPEC]
 }
 
 pub fn find(id: &str) -> Option<&'static Spec> {
